@@ -68,6 +68,14 @@ def shapes():
     out.append(("unterminated_remark", "SCHEMA s; (* never closed\nENTITY e; END_ENTITY;\nEND_SCHEMA;\n", None))
     out.append(("deep_aggregate_type", BASE % ("TYPE t = " + "LIST [0:?] OF " * 200 + "INTEGER;\nEND_TYPE;"), None))
     out.append(("deep_supertype_expr", "SCHEMA s;\nENTITY a SUPERTYPE OF (" + "(" * 200 + "b" + ")" * 200 + ");\nEND_ENTITY;\nENTITY b SUBTYPE OF (a);\nEND_ENTITY;\nEND_SCHEMA;\n", None))
+    for n in (200, 250, 255, 256, 300, 5000):
+        out.append(("use_long_schema_%d" % n, "SCHEMA s;\nUSE FROM " + "u" * n + ";\nENTITY e;\n a : INTEGER;\nEND_ENTITY;\nEND_SCHEMA;\n", None))
+        out.append(("reference_long_schema_%d" % n, "SCHEMA s;\nREFERENCE FROM " + "r" * n + " (x);\nENTITY e;\n a : INTEGER;\nEND_ENTITY;\nEND_SCHEMA;\n", None))
+    for n in (2000, 40000):
+        out.append(("big_where_%d" % n, "SCHEMA s;\nENTITY e;\n a : INTEGER;\nWHERE\n w1 : SIZEOF([" + ", ".join(["1"] * n) + "]) > a;\nEND_ENTITY;\nEND_SCHEMA;\n", None))
+        out.append(("big_derive_%d" % n, "SCHEMA s;\nENTITY e;\n a : INTEGER;\nDERIVE\n d : INTEGER := " + " + ".join(["a"] * n) + ";\nEND_ENTITY;\nEND_SCHEMA;\n", None))
+    out.append(("func_ref_without_args", BASE % "FUNCTION f (x : INTEGER) : INTEGER;\nRETURN (x);\nEND_FUNCTION;\nRULE r FOR (e);\nWHERE wr1 : f > 0;\nEND_RULE;", None))
+    out.append(("proc_call_without_args", BASE % "PROCEDURE p (x : INTEGER);\nEND_PROCEDURE;\nFUNCTION g : INTEGER;\np;\nRETURN (1);\nEND_FUNCTION;", None))
     # known finding probe: identifiers longer than the BUFSIZ name buffers
     out.append(("long_ident_10k", "SCHEMA s;\nENTITY " + "e" * 10000 + ";\nEND_ENTITY;\nEND_SCHEMA;\n", ("long_ident", 10000)))
     return out
